@@ -124,27 +124,31 @@ def gen_cases(rng, sites, reps):
     return cases
 
 
-def execute(cases, name, nchunks=8):
+def execute(cases, name, nchunks=8, static=False):
     w = vlib.workdir(name)
     vlib.write_ndjson(w / "cases.ndjson", cases)
-    bins = vlib.cargo_build(["macros"])
+    if static:   # the same driver and corpus built with tracing's `max_level_info`
+        bins = vlib.cargo_build(["macros_static"], package="vh-static", workspace=VERIF / "harness-static", target="../harness/target-static")
+        bins["macros"] = bins["macros_static"]
+    else:
+        bins = vlib.cargo_build(["macros"])
     vlib.run_bin(bins["macros"], env={"VH_IN": w / "cases.ndjson", "VH_OUT": w / "trace.ndjson"}, timeout=1800)
     lines = vlib.read_ndjson(w / "trace.ndjson")
     found, results = trace.validate(D, "FieldsTrace", lines, name, nchunks=nchunks, jobs=nchunks, tags=("BAD",), timeout=2400)
     return lines, found, results
 
 
-def judge(out, sites, cases, found):
+def judge(out, sites, cases, found, tag=""):
     seen = set()
     for b, pos, rec in found["BAD"]:
         c = cases[rec["n"]]
-        key = (rec["cs"], rec["mode"])
+        key = (rec["cs"], rec["mode"], tag)
         if key in seen:
             continue
         seen.add(key)
         src = sites[rec["cs"]]["src"] if rec["cs"] < len(sites) else "?"
-        out.violation("callsite %d `%s!(%s)` under a collector in mode %s: evals=%s calls=%s differ from Fields" % (
-            rec["cs"], sites[rec["cs"]]["macro"], src[:200], rec["mode"], rec["evals"], json.dumps(rec["calls"])[:500]),
+        out.violation("callsite %d `%s!(%s)` under a collector in mode %s%s: evals=%s calls=%s differ from Fields" % (
+            rec["cs"], sites[rec["cs"]]["macro"], src[:200], rec["mode"], tag, rec["evals"], json.dumps(rec["calls"])[:500]),
             {"case": c, "src": src, "macro": sites[rec["cs"]]["macro"], "observed": {k: rec[k] for k in ("evals", "calls", "notes")}})
 
 
@@ -166,6 +170,15 @@ def run(out, tier):
     cases = gen_cases(rng, sites, 2 if quick else 12)
     lines, found, results = execute(cases, "c10", nchunks=8 if quick else 14)
     judge(out, sites, cases, found)
+    # the compile-time stage: the same corpus in a build capped at INFO (`max_level_info`), accepting and capping collectors
+    scases = [c for c in gen_cases(random.Random(vlib.seed() * 17 + 11), sites, 1) if c["mode"] in ("accept", "cap")]
+    if quick:
+        scases = scases[::2]
+    slines, sfound, _ = execute(scases, "c10s", nchunks=8 if quick else 14, static=True)
+    if not all(x.get("static_max") == 3 for x in slines if x.get("ev") == "run"):
+        raise vlib.ToolError("the static build does not report STATIC_MAX_LEVEL = INFO")
+    judge(out, sites, scases, sfound, " [build with max_level_info]")
+    cases = cases + scases
     live = [s for s in sites if not s["skipped"]]
     out.traces = len(cases)
     out.evaluations = sum(len(c["slots"]) + len(c["decl"]["fields"]) + 1 for c in cases)
@@ -180,7 +193,7 @@ def run(out, tier):
     out.samples = [live[0]["src"], live[100]["src"], live[len(live) // 2]["src"], cases[0]["slots"][:2]]
     out.assumptions = ["built without tracing's `log` feature (with it disabled callsites evaluate fields for `log`; see C18)",
                        "expected Display/Debug texts of sigil fields come from a restricted alphabet whose Rust formatting is known; typed fields use arbitrary values",
-                       "compile-time STATIC_MAX_LEVEL features are not exercised (static disabling = Interest::never)"]
+                       "of the compile-time caps only max_level_info is exercised (second build of the same corpus)"]
 
 
 def replay(out, path):
